@@ -284,37 +284,12 @@ def deep_folded_lengths(ctx, rng, n):
     """Array lengths that name a field folded in through two or three levels of anonymous structures (and an
     anonymous union at the innermost level), in one or two dimensions, with and without a constant of the same name:
     the full round trip of random values."""
-    from ..gen import F, L_expr, N_array, N_int, N_struct
-
     for it in range(n):
-        depth = rng.randint(2, 3)
-        cnt = F("n", N_int("uint8"), len_src=True)
-        innermost = [cnt, F("q", N_int(rng.choice(["uint8", "uint16"])))]
-        if rng.random() < 0.5:
-            innermost.reverse()
-        node = N_struct(innermost, union=rng.random() < 0.35)
-        if node.get("union"):
-            node["fields"] = [cnt, F("raw", N_int("uint8"))]
-        for lvl in range(depth - 1):
-            extra = F(f"k{lvl}", N_int(rng.choice(["uint8", "int8", "uint16"])), len_src=lvl == 0)
-            fields = [extra, F(None, node)] if rng.random() < 0.6 else [F(None, node), extra]
-            node = N_struct(fields)
-        elem = N_int(rng.choice(["uint8", "uint16", "uint32"]))
-        expr = rng.choice(["n", "n & 3", "(n & 1) + 1"])
-        arr = N_array(elem, L_expr(expr))
-        if rng.random() < 0.3:
-            arr = N_array(N_array(elem, L_expr("n & 3")), L_expr("k0 & 1"))
-        fields = [F("h", N_int("uint8")), F(None, node), F("a", arr), F("t", N_int("uint8"))]
-        consts, decls = {}, ()
-        if rng.random() < 0.3:
-            # a constant of the same name: the field read before the array wins
-            consts, decls = {"n": 2}, ({"d": "define", "name": "n", "text": "2"},)
         try:
-            case = gen.simple_case(fields, consts=consts, decls=decls)
+            case = gen.deep_folded_case(rng)
         except Exception:  # noqa: BLE001
             ctx.event("deep_folded_case_not_built")
             continue
-        case["named"] = {}
         ctx.cell("deep-folded-length-source")
         check_case(ctx, case, rng)
 
